@@ -31,6 +31,8 @@ type Op struct {
 	Objs  func(alt int) (reads, writes []unsafe.Pointer, partner *Task)
 	Cost  func(alt int) int // CostNone / CostEnv; nil = CostNone
 	cases []Case
+	chans []unsafe.Pointer // channel of every case (computed by the owning task)
+	sends []bool
 	sync  int64 // race-annotation object: park -> partner's fire -> resumption
 }
 
